@@ -533,13 +533,79 @@ func (w *lfWorld) wouldBlock(name string) bool {
 		if cp == nil {
 			continue
 		}
-		if cp.IsRunning() || cp.IsSuspended() {
+		if cp.IsRunning() || cp.IsSuspended() || (lfWaitsForStoppingChild && cp.IsStopping()) {
 			if w.wouldBlock(c) {
 				return true
 			}
 		}
 	}
 	return false
+}
+
+// ---------------------------------------------------------------------------------------------
+// Predictor calibration. wouldBlock mirrors freeChildren's condition for calling child.Shutdown. The
+// unchanged tree skips a child whose own stop is in progress; a repaired tree may wait for it (then a
+// stopper of the parent WOULD block on the child's held stop lock and must not be started while that
+// lock is held by a parked goroutine). The behaviour is probed once per process on a real system in
+// real time, outside any bubble: the answer only selects which orders are enabled, it never decides a
+// verdict; a slow machine can only push it to the conservative side (fewer orders).
+// ---------------------------------------------------------------------------------------------
+var (
+	lfProbeOnce             sync.Once
+	lfWaitsForStoppingChild bool
+)
+
+type lfProbeActor struct {
+	entered chan struct{}
+	release chan struct{}
+}
+
+func (a *lfProbeActor) PreStart(*Context) error { return nil }
+func (a *lfProbeActor) Receive(*ReceiveContext) {}
+func (a *lfProbeActor) PostStop(*Context) error {
+	close(a.entered)
+	<-a.release
+	return nil
+}
+
+func lfCalibrate() {
+	lfProbeOnce.Do(func() {
+		vfResetPools()
+		defer vfResetPools()
+		lfWaitsForStoppingChild = true // conservative default
+		sys := lfNewSystem("lfprobe")
+		defer lfStopSystem(sys)
+		ctx := context.Background()
+		open := make(chan struct{})
+		close(open)
+		pa := &lfProbeActor{entered: make(chan struct{}), release: open}
+		ca := &lfProbeActor{entered: make(chan struct{}), release: make(chan struct{})}
+		pp, err := sys.Spawn(ctx, "lfp", pa, WithLongLived())
+		if err != nil {
+			return
+		}
+		if _, err := pp.SpawnChild(ctx, "lfc", ca, WithLongLived()); err != nil {
+			return
+		}
+		done := make(chan struct{}, 2)
+		go func() { _ = sys.Kill(ctx, "lfc"); done <- struct{}{} }()
+		select {
+		case <-ca.entered:
+		case <-time.After(5 * time.Second):
+			close(ca.release)
+			return
+		}
+		go func() { _ = sys.Kill(ctx, "lfp"); done <- struct{}{} }()
+		select {
+		case <-pa.entered:
+			lfWaitsForStoppingChild = false
+		case <-time.After(3 * time.Second):
+		}
+		close(ca.release)
+		<-done
+		<-done
+		vsched.Rep().Note("predictor calibration: a parent's stop waits for a child whose own stop is in progress = %v", lfWaitsForStoppingChild)
+	})
 }
 
 func (w *lfWorld) addChild(parent, child string) {
